@@ -1035,6 +1035,11 @@ impl<'de> serde::de::Visitor<'de> for DataVisitor<'_> {
                             "unable to resolve temporary public identifiers for annotation data",
                         ));
                     } else if handle > self.dataset.data_len() {
+                        if handle - self.dataset.data_len() > MAX_TEMP_ID_GAP {
+                            return Err(serde::de::Error::custom(
+                                "temporary public identifier for annotation data leaves an implausibly large gap",
+                            ));
+                        }
                         // expand the gaps, though this wastes memory if ensures that all references
                         // are valid without explicitly storing public identifiers.
                         self.dataset.data.resize_with(handle, Default::default);
@@ -1066,6 +1071,12 @@ impl AnnotationDataSet {
                     id
                 )));
             } else if handle > self.data.len() {
+                if handle - self.data.len() > MAX_TEMP_ID_GAP {
+                    return Err(StamError::DeserializationError(format!(
+                        "temporary public identifier {} for annotation data leaves an implausibly large gap",
+                        id
+                    )));
+                }
                 self.data.resize_with(handle, Default::default);
             }
             Ok(true)
